@@ -184,6 +184,10 @@ type treeW struct {
 	ev int
 	// instrumentation
 	cmpN, cmpLimit int
+	// the stored keys the comparator was shown during the current Get/Contains
+	lookupKey    int
+	lookupKeySet bool
+	cmpOthers    []int
 	inCall         string
 	// structure knowledge from the last full check
 	depth, nodes int
@@ -234,6 +238,37 @@ func (w *treeW) keyOf(pos, rep int) int {
 }
 
 // the comparators handed to the library (instrumented: they count calls and stop a runaway call)
+// rawCmp is the order of the run without instrumentation (harness-side searches).
+func (w *treeW) rawCmp(a, b int) int {
+	var x, y int
+	switch w.order {
+	case 0:
+		x, y = a, b
+	case 1:
+		x, y = b, a
+	default:
+		x, y = a>>2, b>>2
+	}
+	switch {
+	case x < y:
+		return -1
+	case x > y:
+		return 1
+	}
+	return 0
+}
+
+// note records, during a Get/Contains, which stored key a comparator call looked at.
+func (w *treeW) note(a, b int) {
+	if w.lookupKeySet {
+		if a == w.lookupKey {
+			w.cmpOthers = append(w.cmpOthers, b)
+		} else {
+			w.cmpOthers = append(w.cmpOthers, a)
+		}
+	}
+}
+
 func (w *treeW) tick() {
 	w.cmpN++
 	if w.cmpN > w.cmpLimit {
@@ -243,6 +278,7 @@ func (w *treeW) tick() {
 
 func (w *treeW) less(a, b int) bool {
 	w.tick()
+	w.note(a, b)
 	switch w.order {
 	case 0:
 		return a < b
@@ -254,6 +290,7 @@ func (w *treeW) less(a, b int) bool {
 
 func (w *treeW) cmp(a, b int) int {
 	w.tick()
+	w.note(a, b)
 	var x, y int
 	switch w.order {
 	case 0:
@@ -1020,6 +1057,18 @@ func (w *treeW) lookupWork(op string, calls int) {
 		limit *= 2 // a three-way comparison costs up to two calls of less
 	}
 	w.r.Probe("lookup-work-checked")
+	if w.lookupKeySet && len(w.holders) > 0 {
+		// per level: the comparator calls that looked at keys of one node of the search path
+		perNode, _ := w.st.levelWork(w.lookupKey, w.cmpOthers)
+		lim := tMaxKeys
+		if w.fromLess {
+			lim *= 2
+		}
+		if perNode > lim {
+			w.violate("C03", "work/comparisons-per-level", "%s(%d) made %d comparator calls on the keys of a single node; 15 key comparisons per level (x2 calls of less) allow %d", op, w.lookupKey, perNode, lim)
+			return
+		}
+	}
 	if calls > limit {
 		w.violate("C03", "work/comparisons-per-lookup", "%s on a tree of %d keys called the comparator %d times; 15 comparisons per level on at most %d levels allow %d", op, w.m.n, calls, levels, limit)
 	}
@@ -1035,9 +1084,11 @@ func (w *treeW) doGet(h, pos, rep int) {
 	}
 	k := w.keyOf(pos, rep)
 	w.begin("get")
+	w.lookupKey, w.lookupKeySet, w.cmpOthers = k, true, w.cmpOthers[:0]
 	v := w.holders[h].get(k)
 	calls := w.cmpN
 	w.end()
+	defer func() { w.lookupKeySet = false }()
 	w.r.Hist(4, pos, v != nil)
 	if w.tr {
 		w.r.Logf("#%d holder %d Get(%d) [pos %d] -> %s", w.ev, h, k, pos, tValStr(v))
@@ -1069,9 +1120,11 @@ func (w *treeW) doContains(h, pos, rep int) {
 	}
 	k := w.keyOf(pos, rep)
 	w.begin("contains")
+	w.lookupKey, w.lookupKeySet, w.cmpOthers = k, true, w.cmpOthers[:0]
 	got := w.holders[h].contains(k)
 	calls := w.cmpN
 	w.end()
+	defer func() { w.lookupKeySet = false }()
 	w.r.Hist(5, pos, got)
 	if w.tr {
 		w.r.Logf("#%d holder %d Contains(%d) [pos %d] -> %v", w.ev, h, k, pos, got)
